@@ -373,6 +373,8 @@ def _ref_decorators(text):
 
 
 def _ref_assign_targets(text):
+    if text.rstrip(' \t\n').endswith('\\') or '\n' in text.strip('\n') or text.startswith('\n'):
+        return 'unsupported', None
     t = text.rstrip()
     if '\n' in t and not t.endswith('='):
         return 'unsupported', None
@@ -462,6 +464,8 @@ def mode_for_root(a):
         return 'ImportFrom_name' if '.' not in a.name else 'Import_name'
     if isinstance(a, (ast.boolop, ast.operator, ast.unaryop, ast.cmpop)):
         return {ast.boolop: 'boolop', ast.operator: 'operator', ast.unaryop: 'unaryop', ast.cmpop: 'cmpop'}[type(a).__mro__[1]]
+    if n == '_aliases':
+        return '_Import_names' if any('.' in x.name for x in a.names) else '_ImportFrom_names'
     for mode, (cls, field) in LIST_MODES.items():
         if n == cls and mode != '_Import_names':
             return mode
